@@ -316,7 +316,19 @@ func (g *Gen) block(sc *scope, t *Type, depth int) *Block {
 	}
 	var lets []*varInfo
 	for i := 0; i < n; i++ {
-		switch k := g.intn(13, "stmtKind"); {
+		switch k := g.intn(14, "stmtKind"); {
+		case k == 13:
+			if !(depth > 0 && g.pure == 0 && g.P.MatchArgs && g.fuel > 0) {
+				continue
+			}
+			pre, val := g.matchArgCall(inner, depth-1)
+			if val == nil {
+				continue
+			}
+			b.Stmts = append(b.Stmts, pre...)
+			name := g.fresh("v")
+			b.Stmts = append(b.Stmts, Let(name, val))
+			lets = append(lets, inner.add(name, val.T))
 		case k == 12 && depth > 0 && g.pure == 0:
 			// a match whose arms have a value, written as a statement: the value is discarded and the
 			// block goes on (cmd/build_sample_md does this with the result of sys.WriteFile)
@@ -378,11 +390,37 @@ func (g *Gen) block(sc *scope, t *Type, depth int) *Block {
 				ts = append(ts, TBool)
 			}
 			tt := TTuple(ts...)
-			val := g.expr(inner, tt, depth-1)
+			var val *Expr
+			rebound, reboundAt := (*varInfo)(nil), 0
+			if cands := g.shadowable(inner); len(cands) > 0 && !g.P.NoShadow && g.chance(1, 3, "destrRebinds") {
+				// let (x, d) = (e, x + e'): one binder takes the name of a variable of an enclosing block and
+				// another component of the tuple literal on the right still reads that variable (the right-hand
+				// side is evaluated completely before any name is bound)
+				rebound = cands[g.intn(len(cands), "destrReboundVar")]
+				ts = []*Type{rebound.t, rebound.t}
+				tt = TTuple(ts...)
+				reboundAt = g.intn(2, "destrReboundAt")
+				reads := g.useVar(rebound)
+				switch rebound.t.K {
+				case "int", "string":
+					reads = Bin("+", rebound.t, reads, g.expr(inner, rebound.t, depth-1))
+				}
+				comps := []*Expr{g.expr(inner, rebound.t, depth-1), reads}
+				if reboundAt == 1 {
+					comps[0], comps[1] = comps[1], comps[0]
+				}
+				val = &Expr{K: "tuple", T: tt, Args: comps}
+				g.label("destructuring let rebinding a name its right-hand side reads")
+			} else {
+				val = g.expr(inner, tt, depth-1)
+			}
 			st := &Stmt{K: "letd", E: val}
 			var vs []*varInfo
-			for _, et := range ts {
+			for i, et := range ts {
 				name := g.fresh("d")
+				if rebound != nil && i == reboundAt {
+					name = rebound.name
+				}
 				st.Names = append(st.Names, name)
 				vs = append(vs, inner.add(name, et))
 			}
@@ -440,6 +478,105 @@ func (g *Gen) block(sc *scope, t *Type, depth int) *Block {
 	g.fixDestructuring(b)
 	g.guardLeadingInterp(b)
 	return b
+}
+
+// shadowable lists the variables a let of the block with scope inner may shadow (see letName), limited to
+// first-order types.
+func (g *Gen) shadowable(inner *scope) []*varInfo {
+	forbidden := map[string]bool{}
+	for _, v := range inner.vars {
+		forbidden[v.name] = true
+	}
+	if p := inner.parent; p != nil && p.params {
+		for _, v := range p.vars {
+			forbidden[v.name] = true
+		}
+	}
+	var out []*varInfo
+	seen := map[string]bool{}
+	for _, v := range inner.all() {
+		if forbidden[v.name] || seen[v.name] || v.isFunc || !v.t.FirstOrder() || v.t.K == "unit" {
+			continue
+		}
+		seen[v.name] = true
+		out = append(out, v)
+	}
+	return out
+}
+
+// matchArgCall builds a call of a user function one of whose arguments is a match in parentheses, with
+// probed arguments on both sides of it: either a full call, or - the match not being the last argument - a
+// partial application used as a pipe stage (its supplied arguments are evaluated left to right when the
+// stage runs). Falls back to the plain match when its arms are not single expressions.
+func (g *Gen) matchArgCall(sc *scope, depth int) ([]*Stmt, *Expr) {
+	base := func(t *Type) bool { return t.K == "int" || t.K == "string" || t.K == "bool" }
+	type cand struct {
+		f *FuncSig
+		j int
+	}
+	var cands []cand
+	for _, f := range g.Funcs {
+		if len(f.TParams) > 0 || len(f.Params) < 2 || f.Ret.K == "unit" {
+			continue
+		}
+		for j := 1; j < len(f.Params); j++ {
+			if base(f.Params[j]) {
+				cands = append(cands, cand{f, j})
+			}
+		}
+	}
+	if len(cands) == 0 {
+		return nil, nil
+	}
+	c := cands[g.intn(len(cands), "matchArgCallee")]
+	f, j := c.f, c.j
+	var pre []*Stmt
+	var m *Expr
+	if g.P.StringMatch && g.chance(1, 2, "matchArgKind") {
+		pre, m = g.matchString(sc, f.Params[j], 1)
+	} else {
+		pre, m = g.matchUnion(sc, f.Params[j], 1)
+	}
+	if m.K != "matchu" && m.K != "matchs" {
+		return pre, m
+	}
+	ok := true
+	chk := func(b *Block) {
+		if b != nil && (len(b.Stmts) > 0 || !CanInline(b.Final)) {
+			ok = false
+		}
+	}
+	for _, a := range m.Arms {
+		chk(a.Body)
+	}
+	chk(m.Default)
+	if m.VarArm != nil {
+		chk(m.VarArm.Body)
+	}
+	if !ok || !CanInline(m.Args[0]) {
+		return pre, m
+	}
+	g.curRefs[f.Label] = true
+	n := len(f.Params)
+	args := make([]*Expr, n)
+	for i, pt := range f.Params {
+		switch {
+		case i == j:
+			args[i] = m
+		case pt.K == "unit":
+			args[i] = Unit()
+		default:
+			args[i] = g.maybeProbe(g.expr(sc, pt, min(depth, 1)), 2, 3)
+		}
+	}
+	last := f.Params[n-1]
+	if j < n-1 && last.FirstOrder() && last.K != "unit" && g.chance(1, 2, "matchArgPipe") {
+		g.label("match as an argument of a partial application used as a pipe stage")
+		stage := &Expr{K: "call", Name: f.Name, Args: args[:n-1], T: TFunc([]*Type{last}, f.Ret)}
+		return pre, &Expr{K: "pipe", T: f.Ret, Args: []*Expr{args[n-1], stage}}
+	}
+	g.label("match as an argument of a call")
+	return pre, &Expr{K: "call", Name: f.Name, Args: args, T: f.Ret}
 }
 
 // letName picks the name of a new let-bound variable of type vt in the block whose scope is inner:
@@ -738,6 +875,7 @@ func hasEffect(b *Block, funcs []*FuncSig) bool {
 func (g *Gen) genFunc(depth int) *TopItem {
 	g.curRefs = map[string]bool{}
 	g.fuel = FuncFuel
+	g.tvUsed = 0
 	g.inRhs = 0
 	label := g.fresh("item")
 	f := &FuncDecl{Name: g.fresh("fn")}
@@ -773,6 +911,12 @@ func (g *Gen) genFunc(depth int) *TopItem {
 		f.RetAnnot = true
 	}
 	f.Body = g.block(sc, f.Ret, depth)
+	for tries := 0; g.TVarCost(f.Body) > TVarCostLimit && tries < 8; tries++ {
+		// too close to fc's capacity of type variables per definition: once more, smaller
+		g.Steered["function body regenerated to stay below fc's type-variable capacity"]++
+		g.fuel, g.tvUsed, g.inRhs = FuncFuel/2, MaxProbesPerFunc/2, 0
+		f.Body = g.block(sc, f.Ret, max(1, depth-1-tries))
+	}
 	sig := &FuncSig{Name: f.Name, Ret: f.Ret, Label: label}
 	for _, p := range f.Params {
 		sig.Params = append(sig.Params, p.T)
@@ -786,6 +930,7 @@ func (g *Gen) genFunc(depth int) *TopItem {
 func (g *Gen) genRecursive() *TopItem {
 	g.curRefs = map[string]bool{}
 	g.fuel = 12
+	g.tvUsed = 0
 	label := g.fresh("item")
 	name := g.fresh("rec")
 	n, xs := "n", "xs"
@@ -896,6 +1041,7 @@ func (g *Gen) GenProgram() *Program {
 		f := g.Funcs[len(g.Funcs)-1]
 		g.curRefs = map[string]bool{}
 		g.fuel = 10
+		g.tvUsed = 0
 		call := g.callUser(mainScope, f, nil, 2)
 		if g.printable(f.Ret) {
 			mainStmts = append(mainStmts, ExprStmt(Call("frt.Printf1", TUnit, Str(fmt.Sprintf("u%d=%%v\n", u)), call)))
@@ -947,6 +1093,7 @@ func (g *Gen) GenProgramNoMain() *Program {
 func (g *Gen) genTopVar() *TopItem {
 	g.curRefs = map[string]bool{}
 	g.fuel = 8
+	g.tvUsed = 0
 	label := g.fresh("item")
 	t := g.pickDataType("topVarType")
 	name := g.fresh("tv")
